@@ -16,7 +16,7 @@ PID = "C18"
 LEVEL = "exploration"
 ENGINE = "hooksim"
 CHUNK = 16
-REACH = ['loaded_instrumented', 'loaded_plain', 'fault:crash', 'fault:pyc_write_fail', 'fault:pyc_lost_write', 'fault:pyc_torn_write', 'fault:pyc_deleted', 'fault:source_edit_landed_during_import', 'edit:clock_back', 'op:reload', 'runs_with_dont_write_bytecode', 'import_failed_while_a_source_is_broken', 'pyc_tagged_seen', 'histories_cross_validated_with_real_processes']  # counters (prefixes) that a healthy batch makes non-zero; gaps are reported in the evidence
+REACH = ['loaded_instrumented', 'loaded_plain', 'fault:crash', 'fault:pyc_write_fail', 'fault:pyc_lost_write', 'fault:pyc_torn_write', 'fault:pyc_deleted', 'fault:source_edit_landed_during_import', 'par:runs_with_preemption', 'edit:clock_back', 'op:reload', 'runs_with_dont_write_bytecode', 'import_failed_while_a_source_is_broken', 'pyc_tagged_seen', 'histories_cross_validated_with_real_processes']  # counters (prefixes) that a healthy batch makes non-zero; gaps are reported in the evidence
 BUDGET = {"quick": 40, "thorough": 600}
 RULE = (
     "Seeded histories of 2-6 simulated process runs over one real cache directory (real importlib, real "
@@ -59,6 +59,48 @@ def gen_forest(r):
     return {"imports": imports, "lazy": lazy}
 
 
+def closure(forest, m):
+    """Modules whose import locks an `import m` may take: parents, static imports (transitively) and their parents."""
+    out, todo = set(), [m]
+    while todo:
+        x = todo.pop()
+        parts = x.split(".")
+        for k in range(1, len(parts) + 1):
+            y = ".".join(parts[:k])
+            if y not in out:
+                out.add(y)
+                todo.extend(forest["imports"].get(y, []))
+                if y == "chk":
+                    todo.append("chk.core")
+    return out
+
+
+def gen_par(r, forest, seed, tag):
+    """2-3 threads importing concurrently, with pairwise disjoint import closures (so no thread ever waits for a module
+    lock held by a parked thread)."""
+    from ..sched import draw_policy_spec
+
+    n = r.choice((2, 2, 3))
+    threads, used = [], set()
+    for _ in range(n):
+        targets, mine = [], set()
+        for _ in range(r.randrange(1, 3)):
+            m = r.choice(MODULES)
+            c = closure(forest, m)
+            if not (c & used):
+                targets.append(m)
+                mine |= c
+        if targets:
+            threads.append(targets)
+            used |= mine
+    if len(threads) < 2:
+        return None
+    spec = draw_policy_spec(r)
+    if spec["kind"] in ("window", "rendezvous"):  # those anchors belong to the checking code, not to the import hook
+        spec = {"kind": "random", "p": r.choice((0.02, 0.05, 0.1, 0.3))}
+    return {"op": "par", "threads": threads, "sched": spec, "sched_seed": H(seed, "par", tag)}
+
+
 def gen(seed, tier="quick"):
     r = rng(seed, "program")
     forest = gen_forest(r)
@@ -93,6 +135,10 @@ def gen(seed, tier="quick"):
                 body.append({"op": "edit", "module": m, "same_len": r.random() < 0.5, "grow": r.randrange(1, 4),
                              "clock": r.choice((2, 2, 3, 10, -100, 10**7))})
                 body.append({"op": "reload", "module": m})
+        if r.random() < 0.25 and not any(o["checker"] in ("ca", "cb") for o in ops):
+            par = gen_par(r, forest, seed, ri)
+            if par is not None:
+                body.insert(r.choice((0, 0, 1)), par)
         ops += body
         if r.random() < 0.12:
             bm = r.choice(MODULES)
